@@ -103,6 +103,9 @@ type Cert struct {
 	SigAlg x509.SignatureAlgorithm
 	SKI    []byte // subjectKeyIdentifier override (default: SHA-1 of the public key)
 	AKI    []byte // authorityKeyIdentifier override (default: the issuer's subjectKeyIdentifier)
+	// CDPGrouped writes all CDP URIs into ONE DistributionPoint (several
+	// GeneralNames in one fullName) instead of one DistributionPoint per URI
+	CDPGrouped bool
 	// EKUFirst puts the extended-key-usage extension in front of every other
 	// extension (key identifiers included)
 	EKUFirst bool
@@ -217,6 +220,24 @@ func CDPDER(urls []string) []byte {
 	return b.BytesOrPanic()
 }
 
+// CDPGroupedDER encodes ONE DistributionPoint whose fullName lists all URLs.
+func CDPGroupedDER(urls []string) []byte {
+	var b cryptobyte.Builder
+	b.AddASN1(cbasn1.SEQUENCE, func(b *cryptobyte.Builder) {
+		b.AddASN1(cbasn1.SEQUENCE, func(b *cryptobyte.Builder) {
+			b.AddASN1(cbasn1.Tag(0).Constructed().ContextSpecific(), func(b *cryptobyte.Builder) {
+				b.AddASN1(cbasn1.Tag(0).Constructed().ContextSpecific(), func(b *cryptobyte.Builder) {
+					for _, u := range urls {
+						u := u
+						b.AddASN1(cbasn1.Tag(6).ContextSpecific(), func(b *cryptobyte.Builder) { b.AddBytes([]byte(u)) })
+					}
+				})
+			})
+		})
+	})
+	return b.BytesOrPanic()
+}
+
 func (c *Cert) extensions() []pkix.Extension {
 	var exts []pkix.Extension
 	if !c.KUAbsent {
@@ -244,7 +265,11 @@ func (c *Cert) extensions() []pkix.Extension {
 		exts = append(exts, pkix.Extension{Id: OIDAIA, Value: AIADER(c.OCSP)})
 	}
 	if len(c.CDP) > 0 {
-		exts = append(exts, pkix.Extension{Id: OIDCDP, Value: CDPDER(c.CDP)})
+		if c.CDPGrouped {
+			exts = append(exts, pkix.Extension{Id: OIDCDP, Value: CDPGroupedDER(c.CDP)})
+		} else {
+			exts = append(exts, pkix.Extension{Id: OIDCDP, Value: CDPDER(c.CDP)})
+		}
 	}
 	if len(c.Freshest) > 0 {
 		exts = append(exts, pkix.Extension{Id: OIDFreshestCRL, Value: CDPDER(c.Freshest)})
